@@ -146,7 +146,9 @@ svx_read_header	(SF_PRIVATE *psf)
 	psf->sf.format = SF_FORMAT_SVX ;
 
 	while (! done)
-	{	psf_binheader_readf (psf, "Em4", &marker, &chunk_size) ;
+	{	/* A chunk header that cannot be read completely is the end of the input. */
+		if (psf_binheader_readf (psf, "Em4", &marker, &chunk_size) != 8)
+			break ;
 
 		switch (marker)
 		{	case FORM_MARKER :
